@@ -122,12 +122,23 @@ def make_hook(world, outcome, record_name=None):
 def nth_hook(world, n, outcome, otherwise=True):
     """Hook returning `outcome` on its n-th call (1-based), `otherwise` on the others."""
     state = {'k': 0}
+    if not hasattr(world, 'hook_counters'):
+        world.hook_counters = {}
+    key = 'nth%d' % len(world.hook_counters)
+    world.hook_counters[key] = 0
 
     def hook(watcher, arbiter, hook_name, **kw):
         state['k'] += 1
+        world.hook_counters[key] = min(state['k'], n + 1)
         o = outcome if state['k'] == n else otherwise
         world.hook_calls.append((CLOCK.now, watcher.name, hook_name, o, dict(kw)))
         if o == 'raise':
             raise RuntimeError('hook %s raises' % hook_name)
         return o
     return hook
+
+
+def rejected_by_after_spawn(world):
+    """pids for which an after_spawn hook call returned false / raised."""
+    return set(kw.get('pid') for (t, wname, hname, outcome, kw) in world.hook_calls
+               if hname == 'after_spawn' and outcome in (False, 'raise'))
